@@ -34,10 +34,14 @@ func (g *depGraph) schema() string {
 	var sb strings.Builder
 	sb.WriteString("input: { _dependencies: [], name: string, list: [...{x: string}] }\nvariables: { x: string }\n")
 	for _, s := range g.steps {
+		label := s
+		if strings.ContainsAny(s, "-") {
+			label = `"` + s + `"` // a name that is no identifier is written as a quoted label
+		}
 		if g.opt[s] {
-			sb.WriteString(s + "?: { ")
+			sb.WriteString(label + "?: { ")
 		} else {
-			sb.WriteString(s + ": { ")
+			sb.WriteString(label + ": { ")
 		}
 		if d, ok := g.deps[s]; ok && d != nil {
 			qs := []string{}
@@ -171,6 +175,22 @@ func c15(c *Ctx) {
 		for _, s := range steps {
 			d := []string{}
 			for _, t := range steps {
+				if c.Rng.Intn(3) == 0 {
+					d = append(d, t)
+				}
+			}
+			g.deps[s] = d
+			g.opt[s] = c.Rng.Intn(2) == 0
+		}
+		graphs = append(graphs, g)
+	}
+	// steps whose names need a quoted label (`"s-1": {…}`), some of them optional
+	qsteps := []string{"s-1", "s-2", "s-3"}
+	for i := 0; i < c.N(40, 400); i++ {
+		g := &depGraph{steps: qsteps, deps: map[string][]string{}, opt: map[string]bool{}}
+		for _, s := range qsteps {
+			d := []string{}
+			for _, t := range qsteps {
 				if c.Rng.Intn(3) == 0 {
 					d = append(d, t)
 				}
